@@ -17,6 +17,12 @@ def main():
     for b in d["mismatches"][:20]:
         print("  ENGINE/CPYTHON MISMATCH", b)
     assert not d["mismatches"], "the interpreter disagrees with CPython on the differential corpus"
+    from pyvc import npdiff
+    nd = npdiff.main()
+    for b in nd["mismatches"][:20]:
+        print("  NUMPY-MODEL MISMATCH", b)
+    assert not nd["mismatches"], "the numpy model disagrees with numpy 1.26.4 on the differential corpus"
     print("selftest ok: z3", z3.get_version_string(), "| numpy", r.stdout.strip().splitlines()[-1], "| modules", len(e.modules),
-          f"| engine-vs-CPython differential: {d['concrete_cases']} concrete cases, {d['symbolic_points']} symbolic grid points, 0 mismatches")
+          f"| engine-vs-CPython differential: {d['concrete_cases']} concrete cases, {d['symbolic_points']} symbolic grid points, 0 mismatches",
+          f"| numpy-model differential: {nd['cases']} snippet x dtype-pair cases, 0 mismatches, not modelled: {sorted(nd['unsupported'])}")
 main()
